@@ -103,6 +103,19 @@ def gen_cases(rng, tier):
             out.append(("union with dict text", ("raw", "$\"${%s with \"x\"}\"" % bigd)))
         else:
             out.append(("dict json", ("raw", "//encoding.json.encode(%s | {42})" % bigd)))
+    # enumerated core: members that differ only in WHERE a hole / offset / empty item sits (near-miss pairs of every sequence kind),
+    # inside a container of more than 8 members, printed, ordered and ranked: if the order does not separate two such members the
+    # output follows the enumeration order
+    NEAR = ["[1, , 2, 3]", "[1, 2, , 3]", "[1, , , 2]", "[1, , 2]", "[1, 2]", "(1\\[1, 2])", "[1, {}, 2]", "[{}, 1, 2]",
+            '("abcd" without (@: 1, @char: 98))', '("abcd" without (@: 2, @char: 99))', '(1\\"abc")', '"abc"',
+            "{1: [1, , 2]}", "{1: [1, 2, , 3], 2: 0}", "(a: [1, , 2, 3])", "(a: [1, 2, , 3])"]
+    FILL = ", ".join("[%d]" % i for i in range(9))
+    for i in range(len(NEAR)):
+        for j in range(i + 1, len(NEAR)):
+            if (i + j) % 3 and j != i + 1 and tier == "quick":
+                continue
+            S = "{%s, %s, %s}" % (NEAR[i], FILL, NEAR[j])
+            out.append(("near-miss members", ("raw", "(p: %s, o: %s orderby ., r: (%s => (v: .)) rank (k: .v))" % (S, S, S))))
     # the committed witness of the open finding: superimposed array items keep "the last one written"
     out.append(("collide", X.darrow(X.set_([N(i) for i in range(1, 14)]), X.dotfn(X.tup([("@", N(0)), ("@item", X.var("."))])))))
     cases = []
